@@ -455,9 +455,14 @@ def run_whatshap(
             phased_input_reader.read_vcfs()
 
         # The changed-genotype and recombination lists are written piecewise (per chromosome,
-        # per family): the first call creates the file with its header, later calls append
-        gtchange_list_started = False
-        recombination_list_started = False
+        # per family): they are created with their header here (like the read list above, so that
+        # a run that processes no chromosome does not leave an old file behind), all calls append
+        if gtchange_list_filename:
+            write_changed_genotypes(gtchange_list_filename, [])
+        if recombination_list_filename:
+            write_recombination_list(recombination_list_filename, "", [], {}, [], [], [])
+        gtchange_list_started = True
+        recombination_list_started = True
 
         superreads: Dict[str, ReadSet]
         components: Dict
